@@ -92,8 +92,14 @@ impl DataSet {
 /// Random data: inputs in [-1,1] (pairwise different), targets suited to the objective.
 pub fn random_data(rng: &mut Rng, sh: Sh, n: usize, outputs: usize, obj: Obj, softmax: bool) -> DataSet {
     let mut xs: Vec<Vec<f32>> = Vec::new();
+    // one data set in six is a slow walk: consecutive inputs differ by a few 1e-6 per component
+    // (different samples that an approximate comparison would take for equal)
+    let walk = n >= 2 && rng.range(0, 5) == 0;
     while xs.len() < n {
-        let x: Vec<f32> = (0..sh.count()).map(|_| rng.f32_in(-1.0, 1.0)).collect();
+        let x: Vec<f32> = match (walk, xs.last()) {
+            (true, Some(prev)) => prev.iter().map(|v| v + rng.f32_in(1e-6, 6e-6) * if rng.bool() { 1.0 } else { -1.0 }).collect(),
+            _ => (0..sh.count()).map(|_| rng.f32_in(-1.0, 1.0)).collect(),
+        };
         if !xs.contains(&x) {
             xs.push(x);
         }
